@@ -598,6 +598,8 @@ def r08_5(run):
         f_ = run.project.functions.get(q)
         if f_ is None:
             continue
+        if q != relf.qualname and q in getattr(run.project, "absorbed", set()):
+            continue  # a private helper every call of which was inlined: its body is judged where it runs, in the release function
         cfg = build_cfg(run, f_)
         counter_names = {assigned_name(n) for n in own_nodes(f_.node) if isinstance(n, ast.Assign) and isinstance(n.value, ast.Subscript)
                          and dotted(n.value.value) == "_array_counter" and assigned_name(n)}
